@@ -126,7 +126,7 @@ func extractC09() *lean {
 
 	// ---- validators.go
 	_, val := parseFile("vdr/didnuts/validators.go")
-	ctor := map[string]string{"did.W3CSpecValidator": ".w3c", "verificationMethodValidator": ".nutsVM", "basicServiceValidator": ".nutsService"}
+	ctor := map[string]string{"nilEntryValidator": ".nilEntry", "did.W3CSpecValidator": ".w3c", "verificationMethodValidator": ".nutsVM", "basicServiceValidator": ".nutsService"}
 	var vals, valsRaw []string
 	if fd := funcDecl(val, "NetworkDocumentValidator"); fd != nil {
 		ast.Inspect(fd, func(n ast.Node) bool {
@@ -223,7 +223,7 @@ func extractC09() *lean {
 		ast.Inspect(fd, func(n ast.Node) bool {
 			if c, ok := n.(*ast.CallExpr); ok {
 				s := exprString(c.Fun)
-				for _, want := range []string{"checkTransactionIntegrity", "json.Unmarshal", "NetworkDocumentValidator().Validate", "n.isUpdate", "n.handleUpdateDIDDocument", "n.handleCreateDIDDocument"} {
+				for _, want := range []string{"checkTransactionIntegrity", "resolver.RejectNullKeyEntries", "json.Unmarshal", "NetworkDocumentValidator().Validate", "n.isUpdate", "n.handleUpdateDIDDocument", "n.handleCreateDIDDocument"} {
 					if s == want {
 						steps = append(steps, want)
 					}
@@ -509,6 +509,23 @@ func extractC09() *lean {
 		})
 	}
 	l.def("managedValidators", "List String", leanStrList(managed), managed)
+
+	// the owner argument handed to verifyDocumentEntryID by the two Nuts validators
+	ownerArgs := func(recv string) []string {
+		var out []string
+		if fd := c09Method(val, recv, "Validate"); fd != nil {
+			ast.Inspect(fd, func(n ast.Node) bool {
+				if c, ok := n.(*ast.CallExpr); ok && exprString(c.Fun) == "verifyDocumentEntryID" && len(c.Args) == 3 {
+					out = append(out, c09Src(c.Args[0])+" | "+c09Src(c.Args[1]))
+				}
+				return true
+			})
+		}
+		return out
+	}
+	vmOwner, svcOwner := ownerArgs("verificationMethodValidator"), ownerArgs("basicServiceValidator")
+	l.def("vmEntryIdArguments", "List String", leanStrList(vmOwner), vmOwner)
+	l.def("serviceEntryIdArguments", "List String", leanStrList(svcOwner), svcOwner)
 
 	// verifyThumbprint must not depend on the (attacker chosen) type text, and has exactly one `return nil` (the last statement)
 	typeDep, nilReturns, lastIsNil := false, 0, false
